@@ -641,9 +641,17 @@ uchar *StringDictionaryHHTFC::getHeader(size_t idbucket) {
 }
 
 ChunkScan StringDictionaryHHTFC::decodeHeader(size_t idbucket) {
-  uchar *ptr = textStrings + blStrings->getField(idbucket);
+  size_t ptrH = blStrings->getField(idbucket);
+  uchar *ptr = textStrings + ptrH;
+
+  // The scan must not go beyond the end of the bucket (the header of the
+  // last bucket can be shorter than maxcomplength)
+  uint remain = maxcomplength;
+  if (remain > (blStrings->getField(idbucket + 1) - ptrH))
+    remain = blStrings->getField(idbucket + 1) - ptrH;
+
   ChunkScan chunk = {
-      0, 0, ptr, maxcomplength, new uchar[4 * maxlength + tableHT->getK()],
+      0, 0, ptr, remain, new uchar[4 * maxlength + tableHT->getK()],
       0, 0, 1};
 
   // Variables used for adjusting purposes
